@@ -224,3 +224,18 @@ def run(ctx: Context) -> None:  # noqa: F811
     ctx.rep.rule('C02.R7', "each real backend's read() returns the bytes of exactly one receive primitive, unmodified (b'' only at end of stream)")
     backend.read_passthrough(ctx, 'C02.R7')
     ctx.rep.explanation = (ctx.rep.explanation or '') + " R7 (transport layer): every real backend stream's read() returns the result of one receive primitive unmodified."
+
+
+
+_core_run_r8 = run
+
+
+def run(ctx: Context) -> None:  # noqa: F811
+    _core_run_r8(ctx)
+    from . import c13
+
+    if ctx.rep._borrow is not None:
+        return          # already running as a lender: no chains
+    with ctx.rep.borrow({"C13.R5": ("C02.R8", "a well-formed HTTP/2 response is delivered in full however the server frames it: every DATA frame's flow-controlled length (payload AND padding) "
+                                               "is returned as credit on its own stream and flushed - otherwise padded responses close the window and the body never completes:")}):
+        c13.run(ctx)
